@@ -44,6 +44,20 @@ def showOut (o : Out) (n : Nat) (cur : Nat) : String :=
   | .ub => "ub:oob"
   | .dead => "dead"
 
+/-- content of a big file: the harness's 64-bit LCG (`open filebig <len> <seed>`) -/
+def lcgBytes (len seed : Nat) : Bytes :=
+  let rec go : Nat → Nat → Bytes → Bytes
+    | 0, _, acc => acc.reverse
+    | n + 1, x, acc =>
+      let x' := (x * 6364136223846793005 + 1442695040888963407) % 18446744073709551616
+      go n x' (UInt8.ofNat (x' / 72057594037927936) :: acc)
+  go len seed []
+
+/-- FNV-1a (64 bit) of the bytes a big read returned, as the harness prints it -/
+def fnvHex (bs : Bytes) : String :=
+  let h := bs.foldl (fun h b => ((h ^^^ b.toNat) * 1099511628211) % 18446744073709551616) 14695981039346656037
+  String.ofList (Nat.toDigits 16 h)
+
 def parseOp : List String → Option (Op × Nat)
   | ["read", n] => n.toNat?.map fun k => (.read k, k)
   | ["write", h] => (bytesOfHex h).map fun bs => (.write bs, 0)
@@ -130,6 +144,10 @@ def step (st : St) (ws : List String) : St × String :=
     match bytesOfHex h with
     | some _ => (.file { data := [], pos := 0 } true, "ok")
     | none => (st, "bad-op")
+  | .closed, ["open", "filebig", len, seed] =>
+    match len.toNat?, seed.toNat? with
+    | some l, some sd => (.file { data := lcgBytes l sd, pos := 0 } true, "ok")
+    | _, _ => (st, "bad-op")
   | .closed, ["open", "ostream", n] =>
     match n.toNat? with
     | some k => (.os { ob := OBuf.create k, sink := { data := [], cur := 0 }, idx := 0,
@@ -162,6 +180,13 @@ def step (st : St) (ws : List String) : St × String :=
       if r.1.isUb then (.ms s true, "ub:oob") else (.ms r.2 false, showOut r.1 n r.2.cur)
   | .file s true, ["close"] => (.file s false, "ok")
   | .file s false, ["dump"] => (.file s false, "bytes " ++ hexOrDash s.data)
+  | .file s true, ["readh", n] =>
+    match n.toNat? with
+    | some k =>
+      match File.step s (.read k) with
+      | (.bytes ret bs, s') => (.file s' true, s!"rh {ret} {fnvHex bs} @{s'.pos}")
+      | (_, _) => (st, "bad-op")
+    | none => (st, "bad-op")
   | .file s true, ws =>
     match parseOp ws with
     | none => (st, "bad-op")
